@@ -188,7 +188,15 @@ def call_result_edges(fn, call_bb):
     kind = _kind_of_type(fn.local_ty(l))
     if kind is None:
         return set(), set(), []
-    if len(fn.defs.get(l, [])) != 1:
+    others = [d for d in fn.defs.get(l, []) if not (d[1] == 'C' and d[0] == call_bb)]
+    for (b, k, payload) in others:
+        # the local may also receive a definitely-negative value (`?` propagating None/Err, or an explicit
+        # None/Err constructor), as the result slot of an inlined helper does: a positive test outcome can then
+        # still only come from this call
+        if k == 'C' and 'from_residual' in (fn.call_name(b) or ''):
+            continue
+        if k == 'A' and payload[0] == 'agg' and re.search(r'core::(option::Option::None|result::Result::Err)$', str(payload[1])):
+            continue
         return set(), set(), []
     return test_edges(fn, {l: kind})
 
